@@ -33,12 +33,12 @@ Theorem c10_subnet_contains_spec : forall s a, wf_snet s -> wf_ip a -> snet_key 
 Proof. exact subnet_contains_spec_l. Qed.
 Print Assumptions c10_subnet_contains_spec.
 
-(* the subnet re-parsed from its datastore key on reload contains exactly the
-   same addresses as the IPNet that was blocked *)
+(* the canonical subnet ParseCIDR(ipnet.String()) that BlockSubnet stores (and
+   loadRules rebuilds) contains exactly the same addresses as the IPNet given *)
 Theorem c10_reparsed_subnet_same : forall s a, wf_snet s -> wf_ip a -> snet_key s <> None ->
-  contains (parse_cidr (skey_of s)) a = contains s a.
+  contains (cnet s) a = contains s a.
 Proof.
-  intros s a Hs Ha Hk. rewrite parse_cidr_matches by (try assumption; apply skey_of_wf; assumption).
+  intros s a Hs Ha Hk. unfold cnet. rewrite parse_cidr_matches by (try assumption; apply skey_of_wf; assumption).
   symmetry. apply contains_matches_key; assumption.
 Qed.
 Print Assumptions c10_reparsed_subnet_same.
@@ -127,50 +127,56 @@ Theorem c10_every_transport_gated : forall fam g, In fam [1; 2; 3; 4]%Z ->
 Proof. intros fam g H. apply fully_gated_has, c10_gate_sites_complete, H. Qed.
 Print Assumptions c10_every_transport_gated.
 
-(* ---- the monitor that judges the implementation accepts every model trace -------- *)
-(* under the code's reading of a subnet rule (the text IPNet.String() prints
-   identifies it): every history of calls, failed writes, process stops at
-   both points and restarts, every probe set *)
-Theorem c10_monitor_accepts_model_text : forall prs h,
-  Forall wf_probe prs -> Forall wf_event h ->
-  monitor_trace true prs [] 0 (model_trace prs init_state h) = [].
-Proof. intros prs h Hp Hw. apply monitor_text_model; [assumption|assumption|apply Inv_init|apply R_nil]. Qed.
-Print Assumptions c10_monitor_accepts_model_text.
-
-(* under the property's reading (a subnet is the set of its addresses) the
-   same holds when every subnet in the history is given in canonical form
-   (host bits zero, as ParseCIDR returns it) *)
-Theorem c10_monitor_accepts_model_partial : forall prs h,
-  Forall wf_probe prs -> Forall wf_event h -> Forall canonical_event h ->
-  monitor_trace false prs [] 0 (model_trace prs init_state h) = [].
-Proof. exact monitor_model_canonical. Qed.
-Print Assumptions c10_monitor_accepts_model_partial.
-
-Theorem c10_canonical_is_host_bits_zero : forall s, wf_snet s -> snet_key s <> None ->
-  (canonical_rule (RSubnet s) <->
-   let '(f, nn) := norm_ip (s_ip s) in clear_host f nn (eff_ones s) = nn).
-Proof. exact canonical_snet. Qed.
-Print Assumptions c10_canonical_is_host_bits_zero.
-
-(* without that hypothesis the full statement is FALSE of the code:
-   BlockSubnet(IPNet{10.1.2.3, /24}); UnblockSubnet(IPNet{10.1.2.0, /24}) — the
-   second call returns nil, and 10.1.2.9 is still refused (the rule maps and
-   the datastore are keyed by the text "10.1.2.3/24").  Finding, see
-   known_findings/C10.json. *)
-Definition c10_witness : list event :=
-  [EOp (Block (RSubnet (mkSnet (IP4 167838211) false 24)));
-   EOp (Unblock (RSubnet (mkSnet (IP4 167838208) false 24)))].
-
-Theorem c10_monitor_accepts_model_refuted :
-  exists prs h, Forall wf_probe prs /\ Forall wf_event h /\
-    monitor_trace false prs [] 0 (model_trace prs init_state h) <> [].
+(* ---- subnet rules are identified by the set of their addresses ------------------- *)
+(* (since the repair of BlockSubnet/UnblockSubnet: canonicalSubnet) two IPNets
+   are filed under the same key iff they denote the same subnet — whatever
+   host bits, byte form of the IP or byte length of the mask they were given with *)
+Theorem c10_subnet_identity_is_address_set : forall s1 s2,
+  wf_snet s1 -> snet_key s1 <> None -> wf_snet s2 -> snet_key s2 <> None ->
+  (ckey s1 = ckey s2 <-> denote false s1 = denote false s2).
 Proof.
-  exists [PAddrDial (Some (IP4 167838217))], c10_witness. split; [|split].
-  - repeat constructor.
-  - repeat constructor; try (vm_compute; reflexivity); vm_compute; discriminate.
-  - vm_compute. discriminate.
+  intros s1 s2 H1 K1 H2 K2. rewrite !denote_ckey by assumption. split.
+  - intros ->. reflexivity.
+  - intros E. inversion E as [E']. apply id_of_skey_inj, E'.
 Qed.
-Print Assumptions c10_monitor_accepts_model_refuted.
+Print Assumptions c10_subnet_identity_is_address_set.
+
+(* ---- the monitor that judges the implementation accepts every model trace -------- *)
+(* every history of calls, failed writes, process stops at both points and
+   restarts, every probe set, every subnet (canonical or not); the monitor
+   identifies a subnet rule by the set of its addresses *)
+Theorem c10_monitor_accepts_model : forall prs h,
+  Forall wf_probe prs -> Forall wf_event h ->
+  monitor_trace prs [] 0 (model_trace prs init_state h) = [].
+Proof. intros prs h Hp Hw. apply monitor_model; [assumption|assumption|apply Inv_init|apply R_nil]. Qed.
+Print Assumptions c10_monitor_accepts_model.
+
+(* regression (fixed defect a0dca34): BlockSubnet(IPNet{10.1.2.3, /24});
+   UnblockSubnet(IPNet{10.1.2.0, /24}) — with and without a restart in between.
+   Before the repair the rule was keyed by the text "10.1.2.3/24" and stayed
+   enforced although the unblock returned nil. *)
+Definition c10_old_witness (restart : bool) : list event :=
+  [EOp (Block (RSubnet (mkSnet (IP4 167838211) false 24)))] ++
+  (if restart then [EReopen] else []) ++
+  [EOp (Unblock (RSubnet (mkSnet (IP4 167838208) false 24)))].
+
+Example old_witness_now_passes : forall restart,
+  let m := g_mem (run init_state (c10_old_witness restart)) in
+  intercept_addr_dial m (Some (IP4 167838217)) = true /\ list_subnets m = [] /\
+  monitor_trace [PAddrDial (Some (IP4 167838217))] [] 0
+    (model_trace [PAddrDial (Some (IP4 167838217))] init_state (c10_old_witness restart)) = [].
+Proof. intros [|]; vm_compute; repeat split. Qed.
+
+(* ... and while blocked under the non-canonical text the subnet is enforced and
+   listed in canonical form, before and after a restart *)
+Example noncanonical_block_enforced :
+  let h := [EOp (Block (RSubnet (mkSnet (IP4 167838211) false 24)))] in
+  let m1 := g_mem (run init_state h) in
+  let m2 := g_mem (run init_state (h ++ [EReopen])) in
+  intercept_accept m1 (Some (IP4 167838217)) = false /\
+  list_subnets m1 = [mkSnet (IP4 167838208) false 24] /\
+  list_subnets m2 = [mkSnet (IP4 167838208) false 24].
+Proof. vm_compute. repeat split. Qed.
 
 (* ---- non-vacuity ------------------------------------------------------------------- *)
 (* a reachable state that enforces a peer, an address and a subnet rule after a
@@ -203,13 +209,13 @@ Proof. vm_compute. repeat split. Qed.
 
 (* the monitor rejects a trace in which a blocked peer is let through *)
 Example monitor_rejects_admitted_peer :
-  monitor_trace false [PPeerDial 1] [] 0
+  monitor_trace [PPeerDial 1] [] 0
     [(EOp (Block (RPeer 1)), mkObs 0 [true] [1%Z] [] [])] <> [].
 Proof. vm_compute. discriminate. Qed.
 
 (* ... and one in which a rule is lost by a restart *)
 Example monitor_rejects_lost_rule :
-  monitor_trace false [PAccept (Some (IP4 16909060))] [] 0
+  monitor_trace [PAccept (Some (IP4 16909060))] [] 0
     [(EOp (Block (RAddr (IP4 16909060))), mkObs 0 [false] [] [IP16 (mapped 16909060)] []);
      (EReopen, mkObs 0 [true] [] [] [])] <> [].
 Proof. vm_compute. discriminate. Qed.
